@@ -447,3 +447,29 @@ def first_irreducible(p, d, skip=0):
                 return f
             skip -= 1
     raise AssertionError
+
+
+# -- watchdog: a planted/real bug may turn a loop of the code under test into an endless one ----------
+
+class Hang(Exception):
+    """Raised inside the code under test when a single call exceeds the watchdog limit."""
+
+
+def _on_alarm(signum, frame):
+    raise Hang('single call exceeded the watchdog limit')
+
+
+def arm_watchdog():
+    import signal
+    signal.signal(signal.SIGALRM, _on_alarm)
+
+
+def limited(fn, seconds=20.0):
+    """Run fn() (one call into the code under test, normally well under a millisecond) under a
+    generous real-time limit; verdicts on a terminating tree do not depend on it."""
+    import signal
+    signal.setitimer(signal.ITIMER_REAL, seconds)
+    try:
+        return fn()
+    finally:
+        signal.setitimer(signal.ITIMER_REAL, 0)
